@@ -66,6 +66,40 @@ impl CodeCache {
     self.exec_memory.get_memory_area().as_ptr() as *const () as usize
   }
 
+  /// Every cached block: (region index, key, offset, length, bytes translated)
+  #[cfg(feature = "verif")]
+  pub fn verif_entries(&self) -> Vec<(usize, u32, usize, usize, usize)> {
+    let mut entries = Vec::new();
+    for (index, region) in self.code_blocks.verif_regions().iter().enumerate() {
+      for (key, block) in region.cache.iter() {
+        entries.push((index, *key, block.offset, block.length, block.bytes_translated));
+      }
+    }
+    entries
+  }
+
+  /// The bank each cache region is currently keyed with
+  #[cfg(feature = "verif")]
+  pub fn verif_region_banks(&self) -> [u16; 6] {
+    let regions = self.code_blocks.verif_regions();
+    let mut banks = [0; 6];
+    for i in 0..6 {
+      banks[i] = regions[i].verif_bank();
+    }
+    banks
+  }
+
+  /// (prologue offset, epilogue offset, write cursor, capacity)
+  #[cfg(feature = "verif")]
+  pub fn verif_layout(&self) -> (usize, usize, usize, usize) {
+    (
+      self.prologue_location,
+      self.epilogue_location,
+      self.write_cursor,
+      self.exec_memory.get_memory_area().len(),
+    )
+  }
+
   pub fn get_address_for_ip(&self, ip: usize) -> Option<usize> {
     let gb_ip = ip as u16;
     self.code_blocks
